@@ -122,3 +122,20 @@ def findAll (text : Bytes) (e : Expr) : Option (List Match) :=
   if text.length = 0 then some [] else scanAll text (text.length + 2) e (text.length + 1) [] 0 1 1
 
 end Vore.Spec
+
+namespace Vore.Spec
+open Vore
+
+/-- decidable form of the call-free fragment (`Vore.CallFree`, proved equivalent in Lemmas) -/
+def callFreeB : Expr → Bool
+  | .empty => true
+  | .seq a b => callFreeB a && callFreeB b
+  | .atom _ => true
+  | .var _ => true
+  | .loop _ _ _ name body => name == "" && callFreeB body
+  | .branch l r => callFreeB l && callFreeB r
+  | .dec _ body => callFreeB body
+  | .sub _ _ => false
+  | .inl neg items => neg || !items.isEmpty
+
+end Vore.Spec
